@@ -12,7 +12,10 @@ fn tail_token(rng: &mut Rng, c: &CmdSpec, root: &CmdSpec, allow_non_utf8: bool) 
     let names = level_names(c, &empty);
     let rnames = level_names(root, &empty);
     loop {
-        let t: Vec<u8> = match rng.below(16) {
+        let t: Vec<u8> = match rng.below(18) {
+            // delimiter characters inside a tail token (also leading / trailing / doubled)
+            16 => rng.pick(&["a,b", "c,d,e", ",x", "y,", ",", "a,,b", "-Wl,-x", "--k=a,b"]).as_bytes().to_vec(),
+            17 => format!("t{},u{}", rng.below(100), rng.below(100)).into_bytes(),
             0 => b"--help".to_vec(),
             1 => b"-h".to_vec(),
             2 => b"-V".to_vec(),
@@ -182,6 +185,35 @@ pub fn case(seed: u64, st: &mut Stats) {
                 continue;
             }
         };
+        // sometimes `rest` already holds values given *before* the `--` (they are split at the
+        // delimiter; the tail is not, under dont_delimit_trailing_values)
+        let split = |tok: &[u8]| -> Vec<Vec<u8>> {
+            match delim {
+                Some(d) => tok.split(|b| *b == d as u8).map(|p| p.to_vec()).collect(),
+                None => vec![tok.to_vec()],
+            }
+        };
+        let mut prefix = prefix;
+        let mut base = base;
+        let mut pre_rest: Vec<Vec<u8>> = vec![];
+        if !last && (lead_given || !with_lead) && rng.chance(1, 3) {
+            let pre: Vec<Vec<u8>> = (0..rng.range(1, 2)).map(|k| if rng.coin() { format!("pre{}", k).into_bytes() } else { format!("p{},q{}", k, k).into_bytes() }).collect();
+            let mut p2 = prefix.clone();
+            p2.extend(pre.iter().map(|t| os(t)));
+            let want: Vec<Vec<u8>> = pre.iter().flat_map(|t| split(t)).collect();
+            if let Ok(Ok(b2)) = catch(|| cmd.clone().try_get_matches_from(p2.clone())) {
+                let lb: Option<&clap::ArgMatches> = if at_sub { b2.subcommand().filter(|(n, _)| *n == root.subs[sub_idx].name).map(|(_, m)| m) } else { Some(&b2) };
+                let have: Vec<Vec<u8>> = lb.and_then(|m| m.try_get_raw("rest").ok().flatten()).map(|r| r.map(|v| os_bytes(v).to_vec()).collect()).unwrap_or_default();
+                if have == want {
+                    st.count("tail.after-values-before-escape");
+                    prefix = p2;
+                    base = b2;
+                    pre_rest = want;
+                } else {
+                    st.count("premise.pre-values-not-at-rest");
+                }
+            }
+        }
         let ntail = rng.below(6);
         let tail: Vec<Vec<u8>> = (0..ntail).map(|_| tail_token(&mut rng, lvl, &root, os_parser)).collect();
         let mut argv = prefix.clone();
@@ -241,7 +273,7 @@ pub fn case(seed: u64, st: &mut Stats) {
         }
         // expected values of `rest`
         let dont = lvl.has(Setting::DontDelimitTrailingValues);
-        let mut exp_rest: Vec<Vec<u8>> = vec![];
+        let mut exp_rest: Vec<Vec<u8>> = pre_rest.clone();
         for tok in &t {
             match delim {
                 Some(d) if !dont => {
@@ -253,15 +285,15 @@ pub fn case(seed: u64, st: &mut Stats) {
             }
         }
         let got_rest: Vec<Vec<u8>> = lm.try_get_raw("rest").ok().flatten().map(|r| r.map(|v| os_bytes(v).to_vec()).collect()).unwrap_or_default();
+        if dont && delim.is_some() && !t.is_empty() {
+            st.count("tail.dont-delimit-with-delimiter");
+        }
         if got_rest != exp_rest {
-            // with dont_delimit_trailing_values only some tokens are exempt from splitting: not judged
-            if !(dont && delim.is_some()) {
-                st.violation(
-                    "c05:tail-not-verbatim",
-                    format!("`rest` = {:?}, expected {:?} | {}", got_rest.iter().map(|x| show_bytes(x)).collect::<Vec<_>>(), exp_rest.iter().map(|x| show_bytes(x)).collect::<Vec<_>>(), ctx()),
-                );
-                continue;
-            }
+            st.violation(
+                "c05:tail-not-verbatim",
+                format!("`rest` = {:?}, expected {:?} | {}", got_rest.iter().map(|x| show_bytes(x)).collect::<Vec<_>>(), exp_rest.iter().map(|x| show_bytes(x)).collect::<Vec<_>>(), ctx()),
+            );
+            continue;
         }
         if with_lead {
             let id = lvl.args.iter().find(|a| a.id.starts_with("lead")).unwrap().id.clone();
